@@ -245,6 +245,11 @@ func c04Scenarios(tier string) []*Scenario {
 	// a saturated half-open breaker whose thresholds survive single failures: executions it rejects free no permits
 	add("halfopen-cap2-saturated", []Spec{{Kind: KBreaker, FT: 1, FC: 1, ST: 1, SC: 2, BDelay: Long, Pre: "halfopen"}}, 0,
 		[]ExeSpec{{Script: ok(20)}, {Script: ok(20)}, {Script: ok(5), StartAt: 2}, {Script: ok(5), StartAt: 3}}, true)
+	// a redundant manual HalfOpen() on a saturated half-open breaker hands out no second set of trial permits
+	add("halfopen-redundant-manual", []Spec{HO(2, 2)}, 0, []ExeSpec{{Script: ok(20)}, {Script: ok(20)}, {Script: ok(5), StartAt: 8}, {Script: ok(5), StartAt: 8}}, true, func(env *Env) {
+		vrt.Sleep(5)
+		env.Breakers[0].HalfOpen()
+	})
 	// a success threshold combined with a larger failure-side capacity: the trial capacity is the success side's
 	add("halfopen-cap-combined", []Spec{{Kind: KBreaker, FT: 3, FC: 5, ST: 2, SC: 2, BDelay: Long, Pre: "halfopen"}}, 0, []ExeSpec{{Script: ok(10)}, {Script: ok(10)}, {Script: ok(10)}, {Script: ok(10)}}, true)
 	add("halfopen-cap-combined-ratio", []Spec{{Kind: KBreaker, FT: 4, FC: 4, ST: 1, SC: 2, BDelay: Long, Pre: "halfopen"}}, 0, []ExeSpec{{Script: fail(10)}, {Script: ok(10)}, {Script: ok(10)}}, true)
